@@ -85,6 +85,7 @@ pub fn delete_profile(dangling: bool) -> Profile {
         ("delete_global", 4),
         ("delete_memory", 3),
         ("delete_export", 3),
+        ("add_export_func", 1),
         ("add_import_func", 2),
         ("build_func", 2),
         ("add_global", 2),
@@ -157,7 +158,8 @@ pub fn locals_profile() -> Profile {
     let mut p = Profile::base("locals");
     p.min_local_funcs = 1;
     p.simd = true;
-    p.ops = w(&[("add_local", 10), ("build_func", 2), ("inject", 2)]);
+    // locals are also added to functions that came into being by replacing an import
+    p.ops = w(&[("add_local", 10), ("build_func", 2), ("inject", 2), ("replace_import", 2)]);
     p.mean_ops = 5;
     p
 }
@@ -361,6 +363,7 @@ pub fn additions_profile() -> Profile {
         ("add_import_memory", 2),
         ("add_export_func", 3),
         ("add_export_mem", 2),
+        ("delete_export", 2),
         ("mod_global_init", 3),
     ]);
     p.mean_ops = 5;
@@ -382,6 +385,7 @@ pub fn tagged_profile() -> Profile {
         ("add_import_memory", 1),
         ("add_data", 2),
         ("add_export_func", 2),
+        ("delete_export", 1),
         ("add_type", 2),
         ("inject", 6),
         ("convert_local_to_import", 1),
@@ -496,11 +500,11 @@ fn owns(id: &str, m: &Mismatch) -> bool {
         "C06" | "C10" | "C11" => {
             generic
                 || k == "func_ref"
-                || (matches!(k, "entity_missing" | "entity_extra") && matches!(s, "func" | "import" | "start" | "export(func)"))
+                || (matches!(k, "entity_missing" | "entity_extra") && matches!(s, "func" | "import" | "start" | "export(func)" | "export(func)(added)"))
                 || (k == "entity_changed" && s == "import.type")
         }
         "C07" => generic || k == "global_ref" || (matches!(k, "entity_missing" | "entity_extra") && matches!(s, "global" | "export(global)")),
-        "C08" => generic || k == "mem_ref" || (matches!(k, "entity_missing" | "entity_extra") && matches!(s, "memory" | "export(memory)")),
+        "C08" => generic || k == "mem_ref" || (matches!(k, "entity_missing" | "entity_extra") && matches!(s, "memory" | "export(memory)" | "export(memory)(added)")),
         "C09" => {
             matches!(k, "entity_missing" | "entity_extra" | "entity_changed" | "silent_success_on_dangling_ref")
                 || (k == "unexpected_panic" && s.starts_with("op:delete"))
@@ -530,7 +534,8 @@ fn owns(id: &str, m: &Mismatch) -> bool {
         "C28" => k == "custom_section" || (k == "unexpected_panic" && s.starts_with("op:custom")),
         "C29" => matches!(k, "name_migrated" | "name_lost"),
         "C30" => {
-            (k == "entity_changed" && (s.contains("(added)") || s.starts_with("global.init") || s.starts_with("data")))
+            (k == "entity_missing" && s.starts_with("export") && s.ends_with("(added)"))
+                || (k == "entity_changed" && (s.contains("(added)") || s.starts_with("global.init") || s.starts_with("data")))
                 || (k == "returned_id" && matches!(s, "add_global" | "add_imported_global" | "add_data" | "add_local_memory" | "add_import_memory"))
                 || (matches!(k, "func_ref" | "mem_ref") && s == "export(added)")
                 || (k == "mem_ref" && s == "data.mem")
